@@ -358,11 +358,13 @@ template <class V> void sink(const V &v) {
     for (auto x : v) *digestSink += std::to_string(x) + ",";
     *digestSink += ";";
 }
-template <class G> std::string c11(const G &g, bool exhaustivePairs) {
+// onlySources / maxTargets: graphs of tens of thousands of vertices are searched from a few sources, to a few destinations
+template <class G> std::string c11(const G &g, bool exhaustivePairs, const std::vector<VertexIndex> *onlySources = nullptr, unsigned maxTargets = 0) {
     auto adj = adjacency(g);
     unsigned n = (unsigned)g.getSize();
     std::ostringstream o;
     for (VertexIndex s = 0; s < n; ++s) {
+        if (onlySources && std::find(onlySources->begin(), onlySources->end(), s) == onlySources->end()) continue;
         ++C.sources;
         auto d = refBfs(adj, s);
         std::vector<std::set<VertexIndex>> parents(n);
@@ -435,6 +437,7 @@ template <class G> std::string c11(const G &g, bool exhaustivePairs) {
                 allFromOk = false;
             for (VertexIndex t = 0; t < n; ++t) {
                 if (!exhaustivePairs && n > 8 && t % 3 != s % 3) continue;
+                if (maxTargets && t % (n / maxTargets + 1) != s % (n / maxTargets + 1) && t + 1 != n) continue;
                 ++C.pairs;
                 if (d[t] == UNREACH) ++C.unreachablePairs;
                 if (cnt[t] > 1) ++C.tiedPairs;
@@ -492,11 +495,61 @@ template <class G> std::string c11(const G &g, bool exhaustivePairs) {
 }
 
 // copies > 1: every edge is inserted that many times with force=true (parallel entries in the neighbour lists)
+// copies == SOME_DUPLICATED: about a third of the edges are inserted again (once or twice) with force=true after all edges are in,
+// so that a duplicate is generally not next to the original in the neighbour list
+const unsigned SOME_DUPLICATED = 99;
+uint64_t rejectedBeforeSearch = 0;
+// "every graph" includes one on which calls were rejected earlier: two calls with a vertex out of range (forced and unforced,
+// the valid vertex first or second) are made - and must throw - before the graph is handed to the searches
+template <class G, class F> void rejectedCallsInThePast(G &g, Rng &r, F addForced) {
+    unsigned n = (unsigned)g.getSize();
+    if (n == 0) return;
+    for (int t = 0; t < 2; ++t) {
+        VertexIndex ok = r.u(n), bad = n + r.u(2);
+        bool okFirst = r.chance(1, 2);
+        try {
+            addForced(okFirst ? ok : bad, okFirst ? bad : ok, r.chance(2, 3));
+        } catch (std::exception &) {
+            ++rejectedBeforeSearch;
+        }
+    }
+}
 template <class G> G buildUnweighted(const GraphSpec &s, unsigned variant, Rng &r, unsigned copies = 1) {
     G g(s.n);
-    for (auto &e : insertionOrder(s, variant, r))
+    auto order = insertionOrder(s, variant, r);
+    if (copies == SOME_DUPLICATED) {
+        for (auto &e : order) g.addEdge(e.first, e.second);
+        for (auto &e : order)
+            if (r.chance(1, 3))
+                for (unsigned c = 0, k = 1 + r.u(2); c < k; ++c) g.addEdge(e.first, e.second, true);
+        return g;
+    }
+    for (auto &e : order)
         for (unsigned c = 0; c < copies; ++c) g.addEdge(e.first, e.second, c > 0);
+    if (variant == 2 && s.n <= 200) rejectedCallsInThePast(g, r, [&](VertexIndex a, VertexIndex b, bool force) { g.addEdge(a, b, force); });
     return g;
+}
+// tens of thousands of vertices, shallow (every vertex i > 0 hangs below a random earlier one) with as many random extra edges
+// again: index arithmetic that only goes wrong past 2^16 vertices (n*n, n*i+j in 32 bits) is exercised, paths stay short
+GraphSpec bigShallow(bool directed, unsigned n, Rng &r) {
+    GraphSpec s;
+    s.directed = directed;
+    s.n = n;
+    std::set<Edge> seen;
+    auto add = [&](VertexIndex a, VertexIndex b) {
+        Edge e = canon(directed, a, b);
+        if (seen.insert(e).second) s.edges.push_back(e);
+    };
+    for (VertexIndex i = 1; i < n; ++i) {
+        if (i % 97 == 13) continue; // some vertices stay unreachable from 0 (unless a random edge reaches them)
+        VertexIndex p = r.chance(1, 4) ? r.u(std::min(i, 40u)) : r.u(i);
+        add(p, i);
+    }
+    for (unsigned k = 0; k < 2 * n; ++k) add(r.u(n), r.u(n));
+    add(n - 1, n - 1);
+    add(n - 1, 0);
+    add(n - 2, n - 1);
+    return s;
 }
 
 // ------------------------------------------------------------------ C12
@@ -560,6 +613,7 @@ WSpec weighAmplified(const GraphSpec &s, unsigned base, Rng &r) {
 template <class G> G buildWeighted(const WSpec &ws, unsigned variant, Rng &r) {
     G g(ws.s.n);
     for (auto &e : insertionOrder(ws.s, variant, r)) g.addEdge(e.first, e.second, ws.w.at(canon(ws.s.directed, e.first, e.second)));
+    if (variant == 2 && ws.s.n <= 200) rejectedCallsInThePast(g, r, [&](VertexIndex a, VertexIndex b, bool force) { g.addEdge(a, b, 1.25, force); });
     return g;
 }
 std::vector<long double> bellmanFord(const WSpec &ws, VertexIndex s) {
@@ -578,7 +632,52 @@ std::vector<long double> bellmanFord(const WSpec &ws, VertexIndex s) {
     }
     return d;
 }
-template <class G> std::string c12(const G &g, const WSpec &ws, uint64_t budgetOrZero) {
+// the same number of vertices, but only a few hundred of them (spread over the whole index range, first and last included)
+// carry edges: the library's Dijkstra re-heapifies on every relaxation, so the reachable part has to stay small
+GraphSpec bigIslands(bool directed, unsigned n, Rng &r) {
+    GraphSpec s;
+    s.directed = directed;
+    s.n = n;
+    std::vector<VertexIndex> ids = {0, n - 1, n - 2, 65535 % n, 65536 % n, 1};
+    while (ids.size() < 300) ids.push_back(r.u(n));
+    std::set<Edge> seen;
+    auto add = [&](VertexIndex a, VertexIndex b) {
+        Edge e = canon(directed, a, b);
+        if (seen.insert(e).second) s.edges.push_back(e);
+    };
+    for (size_t i = 1; i < ids.size(); ++i)
+        if (i % 37 != 5) add(ids[r.u((unsigned)i)], ids[i]);
+    for (unsigned k = 0; k < 900; ++k) add(ids[r.u(300)], ids[r.u(300)]);
+    add(n - 1, n - 1);
+    add(n - 1, 0);
+    return s;
+}
+// reference for graphs too large for Bellman-Ford: textbook Dijkstra on the model's own edge map (non-negative weights)
+std::vector<long double> refDijkstra(const WSpec &ws, VertexIndex s) {
+    unsigned n = ws.s.n;
+    const long double INF = std::numeric_limits<long double>::infinity();
+    std::vector<std::vector<std::pair<VertexIndex, double>>> adj(n);
+    for (auto &kv : ws.w) {
+        adj[kv.first.first].push_back({kv.first.second, kv.second});
+        if (!ws.s.directed && kv.first.first != kv.first.second) adj[kv.first.second].push_back({kv.first.first, kv.second});
+    }
+    std::vector<long double> d(n, INF);
+    std::priority_queue<std::pair<long double, VertexIndex>, std::vector<std::pair<long double, VertexIndex>>, std::greater<std::pair<long double, VertexIndex>>> pq;
+    d[s] = 0;
+    pq.push({0, s});
+    while (!pq.empty()) {
+        auto top = pq.top();
+        pq.pop();
+        if (top.first > d[top.second]) continue;
+        for (auto &e : adj[top.second])
+            if (top.first + e.second < d[e.first]) {
+                d[e.first] = top.first + e.second;
+                pq.push({d[e.first], e.first});
+            }
+    }
+    return d;
+}
+template <class G> std::string c12(const G &g, const WSpec &ws, uint64_t budgetOrZero, const std::vector<VertexIndex> *onlySources = nullptr) {
     unsigned n = ws.s.n;
     std::ostringstream o;
     o.precision(17);
@@ -586,7 +685,8 @@ template <class G> std::string c12(const G &g, const WSpec &ws, uint64_t budgetO
     uint64_t listLen = 0;
     for (VertexIndex v = 0; v < n; ++v) listLen += g.rawNeighbours(v).size();
     for (VertexIndex s = 0; s < n; ++s) {
-        auto ref = bellmanFord(ws, s);
+        if (onlySources && std::find(onlySources->begin(), onlySources->end(), s) == onlySources->end()) continue;
+        auto ref = onlySources ? refDijkstra(ws, s) : bellmanFord(ws, s);
         try {
             g.scans = 0;
             g.budget = budgetOrZero ? budgetOrZero : GUARD;
@@ -720,15 +820,19 @@ template <class G> std::string c19bfs(const G &g, const std::vector<VertexIndex>
 // every sink: once per copy when expansions are in order, twice when the premature one happens again. The stated bound is
 // then enforced on the amplified graph. On an implementation that expands in distance order nothing is ever amplified.
 struct SearchStats {
-    uint64_t bases = 0, premature = 0, amplified = 0;
+    uint64_t bases = 0, premature = 0, amplified = 0, fractional = 0;
 } SS;
 std::string searchAndAmplify(Rng &r, std::string &desc) {
     for (int attempt = 0; attempt < 150; ++attempt) {
         unsigned nb = 5 + r.u(7);
+        // half of the bases carry weights k/32: most path lengths then fall between the same two integers, which is where a
+        // priority that has lost its fraction (an integer key, a float key) stops ordering the queue
+        double scale = r.chance(1, 2) ? 1.0 : 1.0 / 32;
+        if (scale != 1.0) ++SS.fractional;
         std::vector<std::pair<Edge, double>> edges;
         for (unsigned a = 0; a < nb; ++a)
             for (unsigned b = 0; b < nb; ++b)
-                if (a != b && r.chance(1, 2)) edges.push_back({{a, b}, (double)(1 + r.u(r.chance(1, 2) ? 9 : 20))});
+                if (a != b && r.chance(1, 2)) edges.push_back({{a, b}, scale * (double)(1 + r.u(r.chance(1, 2) ? 9 : 20))});
         for (size_t i = edges.size(); i > 1; --i) std::swap(edges[i - 1], edges[r.u((unsigned)i)]);
         ++SS.bases;
         CountDW g(nb);
@@ -829,7 +933,8 @@ int main(int argc, char **argv) {
         SpecSpace sd(true, thorough ? 4 : 3, nrandom, 4, 14, 30, 130);
         SpecSpace su(false, thorough ? 5 : 4, nrandom, 4, 14, 30, 130);
         uint64_t nfam = thorough ? 1200 : 240;
-        uint64_t total = (sd.count() + su.count()) * variants + nfam;
+        uint64_t nbig = (uint64_t)R.args.geti("big", 0); // graphs of 65535 .. 100003 vertices (the property checks ask for them, the reduced C17 workloads do not)
+        uint64_t total = (sd.count() + su.count()) * variants + nfam + nbig;
         if (R.args.mode == "count") {
             printf("%llu\n", (unsigned long long)total);
             return 0;
@@ -843,12 +948,38 @@ int main(int argc, char **argv) {
                 variant = (unsigned)(idx % variants) * 2; // as enumerated / shuffled
                 s = si < sd.count() ? sd.at(si, seed) : su.at(si - sd.count(), seed);
                 R.count(s.exhaustive ? "graphs_from_exhaustive_enumeration" : (s.n >= 25 ? "graphs_random_25_to_132_vertices_with_hubs" : "graphs_random"));
-            } else {
+            } else if (idx < (sd.count() + su.count()) * variants + nfam) {
                 Family f = familyAt(idx - (sd.count() + su.count()) * variants, true, seed);
                 s = f.s;
                 name = f.name + " ";
                 variant = 2;
                 R.count("graphs_from_tie_rich_families");
+            } else {
+                uint64_t k = idx - ((sd.count() + su.count()) * variants + nfam);
+                static const unsigned bigN[] = {65536, 92682, 65537, 100003, 65535};
+                static const unsigned bigN12[] = {65536, 92682, 65537, 131072, 65535};
+                Rng rb = caseRng(seed, 0xb16, k);
+                s = prop == "C11" ? bigShallow(k % 2 == 0, bigN[(k / 2) % 5], rb) : bigIslands(k % 2 == 0, bigN12[(k / 2) % 5], rb);
+                variant = 0;
+                Rng r = caseRng(seed, 0xc11, idx);
+                curDesc = std::string(s.directed ? "directed" : "undirected") + (prop == "C11" ? " shallow random graph" : " graph with 300 non-isolated vertices") + ", n=" +
+                          std::to_string(s.n) + " edges=" + std::to_string(s.edges.size()) + " (big family, case " + std::to_string(k) + ")";
+                ++C.graphs;
+                R.count("graphs_of_65535_to_100003_vertices");
+                R.distinct.insert(mix64(s.hash(), 77));
+                std::vector<VertexIndex> sources = {0, s.n - 1, (VertexIndex)rb.u(s.n)};
+                if (prop == "C12") sources.push_back(s.edges[rb.u((unsigned)s.edges.size())].first);
+                std::string e, cls;
+                if (prop == "C11") {
+                    if (s.directed) { auto g = buildUnweighted<CountDir<NoLabel>>(s, variant, r); e = c11(g, false, &sources, 5); cls = "LabeledDirectedGraph<NoLabel>"; }
+                    else { auto g = buildUnweighted<CountUnd<NoLabel>>(s, variant, r); e = c11(g, false, &sources, 5); cls = "LabeledUndirectedGraph<NoLabel>"; }
+                } else {
+                    WSpec ws = weigh(s, k % 3 == 0 ? 5 : 1, r);
+                    if (s.directed) { auto g = buildWeighted<CountDW>(ws, variant, r); e = c12(g, ws, 0, &sources); cls = "DirectedWeightedGraph"; }
+                    else { auto g = buildWeighted<CountUW>(ws, variant, r); e = c12(g, ws, 0, &sources); cls = "UndirectedWeightedGraph"; }
+                }
+                if (!e.empty()) R.violation(cls + "/" + obs(e), e + " on " + curDesc);
+                return;
             }
             curDesc = name + s.str();
             ++C.graphs;
@@ -858,12 +989,16 @@ int main(int argc, char **argv) {
             digestSink = &dg;
             if (prop == "C11") {
                 bool intLabel = idx % 2;
+                // every fifth graph carries forced duplicates of about a third of its edges ("every graph": parallel entries in the
+                // neighbour lists make neither new vertices, nor new hop counts, nor new vertex paths)
+                unsigned copies = idx % 5 == 3 ? SOME_DUPLICATED : 1;
+                if (copies != 1) R.count("graphs_with_forced_duplicate_edges");
                 if (s.directed) {
-                    if (intLabel) { auto g = buildUnweighted<CountDir<int>>(s, variant, r); e = c11(g, s.n <= 16); cls = "LabeledDirectedGraph<int>"; }
-                    else { auto g = buildUnweighted<CountDir<NoLabel>>(s, variant, r); e = c11(g, s.n <= 16); cls = "LabeledDirectedGraph<NoLabel>"; }
+                    if (intLabel) { auto g = buildUnweighted<CountDir<int>>(s, variant, r, copies); e = c11(g, s.n <= 16); cls = "LabeledDirectedGraph<int>"; }
+                    else { auto g = buildUnweighted<CountDir<NoLabel>>(s, variant, r, copies); e = c11(g, s.n <= 16); cls = "LabeledDirectedGraph<NoLabel>"; }
                 } else {
-                    if (intLabel) { auto g = buildUnweighted<CountUnd<int>>(s, variant, r); e = c11(g, s.n <= 16); cls = "LabeledUndirectedGraph<int>"; }
-                    else { auto g = buildUnweighted<CountUnd<NoLabel>>(s, variant, r); e = c11(g, s.n <= 16); cls = "LabeledUndirectedGraph<NoLabel>"; }
+                    if (intLabel) { auto g = buildUnweighted<CountUnd<int>>(s, variant, r, copies); e = c11(g, s.n <= 16); cls = "LabeledUndirectedGraph<int>"; }
+                    else { auto g = buildUnweighted<CountUnd<NoLabel>>(s, variant, r, copies); e = c11(g, s.n <= 16); cls = "LabeledUndirectedGraph<NoLabel>"; }
                 }
             } else {
                 // small exhaustive topologies get every alphabet, the rest one seeded alphabet
@@ -977,8 +1112,10 @@ int main(int argc, char **argv) {
     R.counter("log2_of_most_shortest_paths_to_one_vertex_max") = C.maxShortestPathsSeenLog2;
     R.counter("scans_per_mille_of_V_plus_E_plus_1_max") = C.maxScanRatioPermille;
     R.count("budgets_hit", C.budgetsHit);
+    R.count("rejected_calls_made_on_a_graph_before_it_is_searched", rejectedBeforeSearch);
     R.count("small_dense_bases_searched_for_premature_expansion", SS.bases);
     R.count("bases_with_a_premature_expansion", SS.premature);
+    R.count("bases_with_weights_in_32nds", SS.fractional);
     R.count("amplified_graphs_checked_against_the_bound", SS.amplified);
     R.count("wrong_results_seen_but_left_to_C11", C.wrongResultsSeenInWorkCheck);
     R.write();
